@@ -487,8 +487,11 @@ class Check:
             "wall_s": round(time.time() - self.t0, 2),
             "violations": violations,
         }
-        (VERIF / "evidence").mkdir(exist_ok=True)
-        (VERIF / "evidence" / f"{self.pid}.json").write_text(json.dumps(ev, indent=1, default=str) + "\n")
+        # Runs against a deliberately changed /repo (harness.seed, harness.seed_own) set VERIF_EVIDENCE_DIR to a scratch directory, so
+        # that evidence/ only ever holds records of runs on the tree as it is.
+        out = Path(os.environ.get("VERIF_EVIDENCE_DIR") or (VERIF / "evidence"))
+        out.mkdir(parents=True, exist_ok=True)
+        (out / f"{self.pid}.json").write_text(json.dumps(ev, indent=1, default=str) + "\n")
 
 
 def _per_signature(fs: list[dict[str, Any]], k: int) -> list[dict[str, Any]]:
